@@ -48,6 +48,33 @@ def _in_class(items, b):
 
 F = z3.BoolVal(False)
 
+def _lead_len(b, L):
+    """lead byte of an L-byte UTF-8 sequence (the subject is a &str: well-formed by type invariant)"""
+    if L == 1:
+        return z3.And(z3.ULT(b, 0x80), b != 10)          # `.` does not match \n
+    lo, hi = {2: (0xC0, 0xDF), 3: (0xE0, 0xEF), 4: (0xF0, 0xF7)}[L]
+    return z3.And(z3.UGE(b, lo), z3.ULE(b, hi))
+
+
+def _any_fwd(cur, s):
+    K = len(s.bytes)
+    new = [F] * (K + 1)
+    for p in range(K):
+        for L in (1, 2, 3, 4):
+            if p + L <= K:
+                new[p + L] = z3.Or(new[p + L], z3.And(cur[p], z3.ULE(bv(p + L), s.len), _lead_len(s.bytes[p], L)))
+    return new
+
+
+def _any_bwd(cur, s):
+    K = len(s.bytes)
+    new = [F] * (K + 1)
+    for p in range(K):
+        alts = [z3.And(cur[p + L], z3.ULE(bv(p + L), s.len), _lead_len(s.bytes[p], L)) for L in (1, 2, 3, 4) if p + L <= K]
+        new[p] = z3.Or(*alts)
+    return new
+
+
 
 def fwd(nodes, cur, s):
     """cur[p]: the pattern so far can end at position p.  -> vector after `nodes`"""
@@ -59,6 +86,8 @@ def fwd(nodes, cur, s):
             cur = [F] + [z3.And(cur[p], z3.ULT(bv(p), s.len), s.bytes[p] == av) for p in range(K)]
         elif op == C.IN:
             cur = [F] + [z3.And(cur[p], z3.ULT(bv(p), s.len), _in_class(av, s.bytes[p])) for p in range(K)]
+        elif op == C.ANY:
+            cur = _any_fwd(cur, s)
         elif op == C.SUBPATTERN:
             cur = fwd(list(av[3]), cur, s)
         elif op in (C.MAX_REPEAT, C.MIN_REPEAT):
@@ -85,6 +114,8 @@ def bwd(nodes, cur, s):
             cur = [z3.And(cur[p + 1], z3.ULT(bv(p), s.len), s.bytes[p] == av) for p in range(K)] + [F]
         elif op == C.IN:
             cur = [z3.And(cur[p + 1], z3.ULT(bv(p), s.len), _in_class(av, s.bytes[p])) for p in range(K)] + [F]
+        elif op == C.ANY:
+            cur = _any_bwd(cur, s)
         elif op == C.SUBPATTERN:
             cur = bwd(list(av[3]), cur, s)
         elif op in (C.MAX_REPEAT, C.MIN_REPEAT):
